@@ -126,7 +126,7 @@ func TestC16Standin(t *testing.T) {
 		}
 	}
 	words := []string{"foo", "bar", "baz", "qux"}
-	tagDefs := map[string]string{"service/s": "sport:9001", "tag/t": "cport:100:102", "tag/u": "sport:80"}
+	tagDefs := map[string]string{"service/s": "sport:9001", "tag/t": "cport:100:102", "tag/u": "sport:80", "tag/d": "data.up:FOO"}
 	for h := 0; h < nHist; h++ {
 		d := makeTempdirs(t)
 		if err := os.WriteFile(path.Join(d.converter, "up"), []byte(c16Script), 0o775); err != nil {
@@ -181,7 +181,11 @@ func TestC16Standin(t *testing.T) {
 				imp(pk[:1+rng.Intn(2)])
 				ops = append(ops, fmt.Sprintf("import more data for client %d", k))
 			case r < 8:
-				n := []string{"service/s", "tag/t", "tag/u"}[rng.Intn(3)]
+				n := []string{"service/s", "tag/t", "tag/u", "tag/d"}[rng.Intn(4)]
+				if n == "tag/d" && tags[n] {
+					// a tag that filters on the converter's output: it only exists, nothing is attached to it
+					continue
+				}
 				if !tags[n] {
 					if mgr.AddTag(n, "red", tagDefs[n]) == nil {
 						tags[n] = true
@@ -267,6 +271,16 @@ func TestC16Standin(t *testing.T) {
 					if !has && gotSet[id] {
 						fail("stale-output", hist, fmt.Sprintf("the search data.up:%s finds stream %d, whose current payload is %v", W, id, si.chunks))
 					}
+				}
+			}
+			// a tag that filters on the converter's output is decided on the output that exists now
+			if tags["tag/d"] {
+				a, err1 := c16Search(&v, "tag:d")
+				b, err2 := c16Search(&v, tagDefs["tag/d"])
+				if err1 != nil || err2 != nil {
+					fail("read-error", hist, fmt.Sprintf("search tag:d: %v %v", err1, err2))
+				} else if fmt.Sprint(a) != fmt.Sprint(b) {
+					fail("tag-on-old-output", hist, fmt.Sprintf("the service is quiet, tag/d := %q is decided for %v, its definition selects %v", tagDefs["tag/d"], a, b))
 				}
 			}
 			// the output shown for every stream is the output for its current payload
